@@ -35,6 +35,9 @@ type Case struct {
 	Stdin   []byte            `json:"stdin"`
 	Files   map[string][]byte `json:"files,omitempty"`
 	Dirs    []string          `json:"dirs,omitempty"`
+	// GrammarFile names the entry of Files that holds the grammar (when it is
+	// delivered by file).
+	GrammarFile string `json:"grammar_file,omitempty"`
 	Faults  simos.Faults      `json:"faults"`
 	MapMode int               `json:"map_mode"`
 	MapSeed uint64            `json:"map_seed"`
